@@ -75,6 +75,17 @@ def check_molecule(tw, smi, fails, tags):
                 fails.append({"function": "h_to_explicit", "violations": list(v_e) or ["raised %s" % (out_e[1],)], "smiles": smi, "tags": dict(tags, clause="explicit-contract")})
         except Exception as ex:
             bad("h_to_explicit", "contract evaluation raised %r" % (ex,), "explicit-contract")
+    # ... and the contract for a call with a list of atoms (every second atom, one of them twice, one id that is not in the graph)
+    K_LIST = K_EXPL + "~list"
+    if K_LIST in tw.functions and not any("typesGH" in d for _, d in G.nodes(data=True)) and G.number_of_nodes() > 0:
+        ids = sorted(G.nodes())
+        sel = ids[::2] + ids[:1] + [max(ids) + 1000]
+        try:
+            out_l, v_l = tw.check_call(K_LIST, lambda G, nodes, its: h_to_explicit(G, nodes, its), dict(G=G, nodes=list(sel), its=False))
+            if v_l or out_l[0] != "return":
+                fails.append({"function": "h_to_explicit", "violations": list(v_l) or ["raised %s" % (out_l[1],)], "smiles": smi, "tags": dict(tags, clause="explicit-list-contract")})
+        except Exception as ex:
+            bad("h_to_explicit", "list-contract evaluation raised %r" % (ex,), "explicit-list-contract")
     ebefore = gdump(E)
     try:
         out, v = tw.check_call(K_IMPL, h_to_implicit, dict(G=E)) if K_IMPL in tw.functions else (("return", h_to_implicit(E)), [])
